@@ -7,4 +7,4 @@ Extraction "c04_model.ml" xform_code_values aligned_code unknown_code n1_cw n1_f
   x_flip_analyze x_flip_spm99 x_flip_spm2 x_flip_nifti1 x_flip_nifti2
   best_src get_best_affine get_sform_coded get_qform_coded resolve_code set_sform set_qform
   nifti_save_load analyze_save_load affine_block pixdim_block read_blocks
-  shape_zoom_affine spm_origin_used spm_origin_affine spm_write spm_mat_choice spm_read allclose.
+  shape_zoom_affine spm_origin_used spm_origin_affine spm_write spm_mat_choice spm_read allclose update_decision.
